@@ -6,6 +6,7 @@ import (
 	"github.com/zishang520/engine.io-go-parser/packet"
 	"github.com/zishang520/engine.io/v2/config"
 	"github.com/zishang520/engine.io/v2/transports"
+	"github.com/zishang520/engine.io/v2/types"
 	verif "github.com/zishang520/engine.io/v2/internal/zzverif"
 )
 
@@ -210,5 +211,32 @@ func VerifH_C07_v4_silent_polling() {
 			verif.Assert(r == "ping timeout", "with reason 'ping timeout'")
 		}
 		verif.Assert(ps.Clients().Len() == 0, "and removed from the table")
+	})
+}
+
+// VerifH_C07_silent_while_closing: a graceful Close with data still buffered puts the
+// session into 'closing'; a peer that stays silent from then on is still closed exactly at
+// the heartbeat deadline (one interval plus one timeout after the open on both revisions
+// in this script), not earlier and not never.
+func VerifH_C07_silent_while_closing() {
+	verif.RunTimed(func() {
+		I, T := verif.Int64(), verif.Int64()
+		verif.Assume(I >= 1 && I <= 1<<30 && T >= 1 && T <= 1<<30)
+		proto := [2]int{4, 3}[verif.Choose(2)]
+		w := newHbWorld(proto, time.Duration(I), time.Duration(T))
+		w.ft.onSend = nil // the peer stops reading: no write cycle completes any more
+		w.sock.Send(types.NewStringBufferString("a"), nil, nil)
+		w.sock.Send(types.NewStringBufferString("b"), nil, nil)
+		w.sock.Close(false)
+		verif.Assert(w.sock.ReadyState() == "closing", "closing while data is buffered")
+		verif.SleepUntil(I + T - 1)
+		verif.Settle()
+		verif.Assert(w.rec.count("close") == 0, "not closed before the heartbeat deadline")
+		verif.SleepUntil(I + T)
+		verif.Settle()
+		verif.Assert(w.closedWith("ping timeout"), "a silent peer of a closing session is closed with 'ping timeout' exactly at the deadline")
+		verif.SleepUntil(I + T + I + T + 1)
+		verif.Settle()
+		verif.Assert(w.rec.count("close") == 1, "exactly once")
 	})
 }
